@@ -90,7 +90,7 @@ def rule_diff(ctx):
         ('centered', False): ('mid', None), ('centered', True): ('raise', 'ValueError'),
         ('sideways', False): ('raise', 'ValueError'),
     }
-    not_none = {('cmp', 'is', AXIS, T.CONST_NONE): False}
+    not_none = {T.mkcmp('is', AXIS, T.CONST_NONE): False}
     for (scheme, keep), (kind, arg) in table.items():
         ev = run(ctx, fi, bind={'scheme': const(scheme), 'keepaxis': const(keep), 'n': const(1)}, facts=not_none)
         inst = 'scheme=%s keepaxis=%s' % (scheme, keep)
@@ -122,7 +122,7 @@ def rule_diff(ctx):
                 continue
             el = ('elem', ('attr', OBJ, 'axes'), newaxes[3][0][0])
             cond, a_then, a_else = newaxes[2][1], newaxes[2][2], newaxes[2][3]
-            if cond != ('cmp', '!=', ('attr', el, 'name'), NAME) or a_then != ('call', ('attr', el, 'copy'), (), ()):
+            if cond != T.mkcmp('!=', ('attr', el, 'name'), NAME) or a_then != ('call', ('attr', el, 'copy'), (), ()):
                 ctx.violated('R2', fi, 'newaxes = ' + T.show(newaxes)[:140], 'the replaced axis is selected by the name of the same resolution; the others are copies', node=p.node)
                 ok = False
                 continue
@@ -160,7 +160,7 @@ def rule_diff(ctx):
             ctx.holds('R2', inst + ' -> ' + (T.show(arg) if kind == 'slice' else kind + ' ' + str(arg)))
     # recursion
     facts_rec = dict(not_none)
-    facts_rec[('cmp', '<', const(1), P_('n'))] = True
+    facts_rec[T.mkcmp('<', const(1), P_('n'))] = True
     ev = run(ctx, fi, facts=facts_rec, bind={'scheme': const('backward'), 'keepaxis': T.CONST_FALSE})
     rec = [e for p in ev.paths for e in p.calls('diff') if T.call_receiver(e.a) is not None and T.call_receiver(e.a) == OBJ]
     if not rec:
@@ -240,7 +240,7 @@ def rule_arg(ctx):
         res = ('call', ('name', 'apply_along_axis'), (OBJ, const(name)), (('axis', IDX), ('skipna', P_('skipna'))))
         okd = False
         for p in ret_paths(ev):
-            along = [pol for a, pol in p.guards if a == ('cmp', 'is', AXIS, T.CONST_NONE)]
+            along = [pol for a, pol in p.guards if a == T.mkcmp('is', AXIS, T.CONST_NONE)]
             if along == [False]:
                 st = [e for e in p.events if e.kind in ('store_attr', 'store_sub')]
                 want_val = ('sub', ('attr', ('sub', ('attr', OBJ, 'axes'), IDX), 'values'), ('attr', res, 'values'))
